@@ -335,3 +335,32 @@ Lemma skipn_add {A} a b (l : list A) : skipn (a + b) l = skipn b (skipn a l).
 Proof. revert l; induction a as [|a IH]; intros l; [reflexivity|]. destruct l as [|x l]; cbn [Nat.add skipn].
   - now rewrite skipn_nil.
   - apply IH. Qed.
+
+(* ---- from one translated block body to the whole block sequence ------------------------------------ *)
+(* [fold_src step]: run a (partial) single-block step, as obtained from a translated backend body through the
+   interpreter, over a list of cells, left to right -- what BlockCtx / the single-block loop of the drivers does.
+   If each step is the model's step (under an invariant on the state and a condition on the cells), the whole run
+   is the model's [fold_cells], to which the model-level theorems (recurrences, round trips, ...) apply. *)
+Section FoldSrc.
+  Context {S : Type}.
+  Variable step : S -> cell -> option (S * cell).
+  Fixpoint fold_src (st : S) (cs : list cell) : option (S * list cell) :=
+    match cs with
+    | [] => Some (st, [])
+    | c :: cs' =>
+        match step st c with
+        | Some (st1, c1) => match fold_src st1 cs' with Some (st2, o) => Some (st2, c1 :: o) | None => None end
+        | None => None
+        end
+    end.
+  Variable f : S -> cell -> S * cell.
+  Variable Inv : S -> Prop.
+  Variable Pc : cell -> Prop.
+  Hypothesis step_ok : forall st c, Inv st -> Pc c -> step st c = Some (f st c) /\ Inv (fst (f st c)).
+  Lemma fold_src_ok st cs : Inv st -> Forall Pc cs -> fold_src st cs = Some (fold_cells f st cs).
+  Proof.
+    intros Hi Hc. revert st Hi. induction Hc as [|c cs Hc _ IH]; intros st Hi; [reflexivity|].
+    cbn [fold_src fold_cells]. destruct (step_ok st c Hi Hc) as [-> Hi']. destruct (f st c) as [st1 c1]. cbn [fst] in Hi'.
+    rewrite (IH st1 Hi'). destruct (fold_cells f st1 cs). reflexivity.
+  Qed.
+End FoldSrc.
